@@ -300,6 +300,30 @@ def gen_import_arms(man):
     info["globals_use_active_module"] = bool(ok)
     o9, c9 = fn_body(vm, "closure_impl")
     info["closure_takes_active_module"] = contains(vm, o9, c9, ["new_root_obj_closure", "(", "function", ",", "self", ".", "active_module", ")"])
+    # the built-in file loader: every failure of fs::read_to_string is reported with one error kind and one format
+    od, cd = fn_body(vm, "default_read_module_source")
+    rd = find_seq(vm, ["fs", "::", "read_to_string", "("], od, cd)
+    kinds, reasons, default_reason = [], [], "?"
+    if rd >= 0:
+        j = rd
+        while j < cd:
+            if vm[j].text == "ErrorKind" and vm[j + 1].text == "::":
+                is_io = j >= 2 and vm[j - 1].text == "::" and vm[j - 2].text == "io"
+                if is_io:
+                    if vm[j + 3].text == "=>" and vm[j + 4].kind == "str":
+                        reasons.append((vm[j + 2].text, rust_str(vm[j + 4].text)))
+                elif vm[j + 2].text not in kinds:
+                    kinds.append(vm[j + 2].text)
+            if vm[j].text == "_" and vm[j + 1].text == "=>":
+                default_reason = rust_str(vm[j + 2].text) if vm[j + 2].kind == "str" else "<not a literal>"
+            j += 1
+    info["default_loader_read_error_kinds"] = kinds
+    info["default_loader_reasons"] = reasons
+    info["default_loader_default_reason"] = default_reason
+    fmts = [rust_str(vm[j].text) for j in range(rd if rd >= 0 else od, cd) if vm[j].kind == "str" and "{}" in vm[j].text]
+    info["default_loader_fmts"] = fmts
+    we = find_seq(vm, ["with_extension", "("], od, cd)
+    info["default_loader_extension"] = rust_str(vm[we + 2].text) if we >= 0 and vm[we + 2].kind == "str" else "?"
     # reset keeps "main"
     oa, ca = fn_body(vm, "reset")
     r = find_seq(vm, ["self", ".", "modules", ".", "retain", "("], oa, ca)
@@ -397,6 +421,11 @@ def gen_import_arms(man):
     L.append("Definition gen_unwind_truncates_then_loads : bool := %s." % b(info["unwind_truncates_then_loads"]))
     L.append("Definition gen_globals_use_active_module : bool := %s." % b(info["globals_use_active_module"]))
     L.append("Definition gen_closure_takes_active_module : bool := %s." % b(info["closure_takes_active_module"]))
+    L.append("Definition gen_default_loader_read_error_kinds : list string := %s." % coq_list(info["default_loader_read_error_kinds"]))
+    L.append("Definition gen_default_loader_reasons : list (string * string) := [%s]." % "; ".join("(%s, %s)" % (coq_str(n), coq_str(t)) for n, t in info["default_loader_reasons"]))
+    L.append("Definition gen_default_loader_default_reason : string := %s." % coq_str(info["default_loader_default_reason"]))
+    L.append("Definition gen_default_loader_fmts : list string := %s." % coq_list(info["default_loader_fmts"]))
+    L.append("Definition gen_default_loader_extension : string := %s." % coq_str(info["default_loader_extension"]))
     L.append("Definition gen_reset_keeps : string := %s." % coq_str(info["reset_keeps"] or "?"))
     L.append("Definition gen_with_built_ins_module : string := %s." % coq_str(info["with_built_ins_module"]))
     L.append("Definition gen_import_main_literal : string := %s." % coq_str(info["import_main_literal"]))
